@@ -67,6 +67,7 @@ def check_program(col, pp, cfg, prog):
     world = bench.World(pp, subs_json=prog['subs'])
     R = world.real
     eager = programs.run_eager(pp, R, prog)
+    programs.set_rel_tol(world, eager, prog)
     rr = programs.run_recipe(pp, R, prog, bake=False, uses_as_list=len(prog['steps']) % 2 == 0)
     case = prog
     steps = programs.real_steps(prog)
